@@ -39,7 +39,6 @@ class C19(Oracle):
         facts = {"pickup": [], "dropoff": [], "cancel": [], "charge": {}, "moved": {}}
         for vid, v1 in nxt.vehicles.items():
             v0 = prev.vehicles.get(vid)
-            u = after_instr.get(vid)
             if v0 is None:
                 continue
             if act(v1) == "ServicingTrip":
@@ -59,7 +58,18 @@ class C19(Oracle):
         picked = {rid for rid, _ in facts["pickup"]}
         for rid in set(prev.requests) | set(admitted):
             if rid not in nxt.requests and rid not in picked:
-                facts["cancel"].append(rid)
+                q = admitted.get(rid) or prev.requests.get(rid)
+                # cancellation runs before the vehicles act: a request whose time is up is cancelled, any other request
+                # that left the waiting set was picked up -- by the vehicle that had arrived for it, even if that vehicle
+                # then ran out of energy in the same step and shows no passenger at the end of it
+                if ctx.T >= int(q.departure_time) + self.timeout:
+                    facts["cancel"].append(rid)
+                else:
+                    who = [vid for vid, u in after_instr.items()
+                           if act(u) == "DispatchTrip" and u.vehicle_state.request_id == rid and len(u.vehicle_state.route) == 0
+                           and nxt.vehicles.get(vid) is not None and act(nxt.vehicles[vid]) == "OutOfService"]
+                    facts["pickup"].append((rid, who[0] if len(who) == 1 else "?"))
+                    ctx.run.probes["pickup_then_out_of_energy_same_step"] += 1
         self.seen.append(facts)
         self.pickups += len(facts["pickup"])
         return ()
